@@ -67,6 +67,9 @@ def _values_set():
         if r < 0.5 and a.dtype.kind == "f":
             return {"a": a_id, "how": "fillna", "value": rng.choice([0, -9.0])}
         dt = rng.choice(["f8", "i8"])
+        if a.ndim == 0 and rng.random() < 0.5:
+            # non-scalar data for a 0-d array: must be refused (or at least leave a well-formed array)
+            return {"a": a_id, "how": "values_bcast", "new": rng.choice([[1.0, 2.0], [[3]], 4.5])}
         if a.ndim and rng.random() < 0.35:
             # a right-hand side that relies on broadcasting: a scalar or a single row, possibly of another kind
             if rng.random() < 0.5:
@@ -342,7 +345,7 @@ def _query():
 
 # ---------------------------------------------------------------------------------- datasets inside ArrayWorld
 
-KEYS = ["v0", "v1", "v2", "v3"]
+KEYS = ["v0", "v1", "v2", "foo", "history"]     # two keys are also names used as metadata in the routing steps
 
 
 @defop("ds_make", "dataset", weight=1.0)
